@@ -62,6 +62,26 @@ class ModSets:
                         tgt, how = f.stmts[n['obj']], 'call?:' + name
                     elif self.mods(t):
                         tgt, how = f.stmts[n['obj']], 'call:' + name
+            if tgt is None and k in ('CallExpr', 'CXXMemberCallExpr') and n.get('args'):
+                # a field handed to a repo function through a non-const lvalue reference parameter (TranslateRS(definition, ...)) is written there
+                t = self.db.by_mn.get(n.get('mn') or '')
+                if t is None and k == 'CallExpr' and (n.get('cs') or '').startswith('ccl::'):
+                    # callee defined in a unit that is not loaded: an lvalue of non-const type passed *directly* (no copy construction,
+                    # no const-adding conversion) is bound to a non-const reference
+                    for a in n['args']:
+                        an = f.stmts[a]
+                        if an['k'] in ('MemberExpr', 'DeclRefExpr') and an.get('lv') and 'const' not in an.get('t', ''):
+                            r = self.field_root(f, an)
+                            if r is not None:
+                                out.append((r[1], 'call?:' + (n.get('cs') or '').split('::')[-1] + '(&)', n, r[2]))
+                if t is not None and not (n.get('cs') or '').startswith('std::'):
+                    for i, a in enumerate(n['args']):
+                        if i < len(t.rec['params']):
+                            pt = t.rec['params'][i]['type'].strip()
+                            if pt.endswith('&') and not pt.endswith('&&') and not pt.startswith('const '):
+                                r = self.field_root(f, f.stmts[a])
+                                if r is not None:
+                                    out.append((r[1], 'call:' + (n.get('cs') or '').split('::')[-1] + '(&)', n, r[2]))
             if tgt is None:
                 continue
             if how == 'map[]' and self._index_guarded(f, n):
